@@ -9,6 +9,12 @@ def decEntryD (s : String) : Option FnEntry :=
     let f ← decStr f
     if t == "nil" then pure { full := f, topo := none }
     else do let t ← decTopo t; pure { full := f, topo := some t }
+  | [f, t, fp] => do
+    -- third field: the function's fingerprint (hex of the hex string)
+    let f ← decStr f
+    let fp ← decStr fp
+    if t == "nil" then pure { full := f, topo := none, fp := fp }
+    else do let t ← decTopo t; pure { full := f, topo := some t, fp := fp }
   | _ => none
 
 def decEntries (s : String) : Option (List FnEntry) :=
